@@ -27,6 +27,10 @@ def oracle(res, case, sk, ops, impl, live, tmp, keypath):
     if live is None:
         return
     schema, cfg, built, log = live
+    for n, (op, st) in enumerate(zip(ops, impl["steps"])):
+        if op["op"] == "setitem" and op["value"].get("a") == "cfg" and op["value"].get("schema_same") is False and st["out"] == "ok":
+            res.violate("C01:foreign-schema-config", "a configuration built from another schema was accepted as the value of a nested-schema field",
+                        dict(case, at=n, op=op))
     # the final state (every intermediate state is covered by the model comparison; re-validation after every op is done below)
     P.check_invariant(res, case, sk, cfg, "end")
 
